@@ -109,7 +109,13 @@ Proof.
               exists e. split; [exact Hin|]. apply msame_perm. exact Hp.
       * rewrite msame_perm. tauto.
     + rewrite msame_perm. tauto.
-  - rewrite andb_true_iff, eqb_true_iff, msame_perm. tauto.
+  - rewrite andb_true_iff, eqb_true_iff, orb_true_iff, andb_true_iff, msame_perm.
+    split.
+    + intros [H1 [H2|[Hs H2]]]; (split; [exact H1|]); [left; exact H2|].
+      destruct b; try discriminate. apply existsb_exists in H2. destruct H2 as [e [Hin Hm]].
+      right. split; [exact Hs|]. split; [reflexivity|]. exists e. split; [exact Hin|]. apply msame_perm. exact Hm.
+    + intros [H1 [H2|[Hs [Hb [e [Hin Hp]]]]]]; (split; [exact H1|]); [left; exact H2|].
+      right. split; [exact Hs|]. subst b. apply existsb_exists. exists e. split; [exact Hin|]. apply msame_perm. exact Hp.
 Qed.
 
 (* ------------------------------------------------------------------ what a click designates ------------------- *)
@@ -263,8 +269,20 @@ Proof.
         { split; [exact Hsh|]. exists removed. split; [|exact Hlen].
           eapply perm_trans; [exact Hperm|]. apply Permutation_app_tail. symmetry. exact H2. }
         destruct b; exact Hgoal.
-    + destruct Hal as (H1 & H2). rewrite H1 in *. split; [exact Hsh|]. exists removed. split; [|exact Hlen].
-      eapply perm_trans; [exact Hperm|]. apply Permutation_app_tail. symmetry. exact H2.
+    + destruct Hal as (H1 & H2). rewrite H1 in *.
+      destruct H2 as [H2|(Hs & Hb & e & Hin & Hp)].
+      * assert (Hgoal : forall n, (ndesel (shift st) l <= n)%nat -> shift st2 = shift_after (shift st) l /\
+                 exists removed0, Permutation (sel st2 ++ removed0) (sel st ++ flat_map (designated pick) (eff_clicks (shift st) l)) /\
+                                  (length removed0 <= n)%nat).
+        { intros n Hn. split; [exact Hsh|]. exists removed. split; [|lia].
+          eapply perm_trans; [exact Hperm|]. apply Permutation_app_tail. symmetry. exact H2. }
+        destruct b; try (apply Hgoal; lia). destruct (shift st); apply Hgoal; lia.
+      * subst b. rewrite Hs in *. split; [exact Hsh|]. exists (e :: removed). split; [|cbn [length]; lia].
+        eapply perm_trans; [apply perm_move|].
+        eapply perm_trans; [apply perm_skip, Hperm|].
+        change (Permutation ((e :: sel st1) ++ flat_map (designated pick) (eff_clicks true l))
+                            (sel st ++ flat_map (designated pick) (eff_clicks true l))).
+        apply Permutation_app_tail. symmetry. exact Hp.
 Qed.
 
 (* pick_inv, generic in the dialog variant: [cell] is any property every designated pair has *)
@@ -355,12 +373,20 @@ Theorem nonpicking_noop pick st a st' :
   match a with
   | KeyDown => shift st' = true /\ Permutation (sel st) (sel st')
   | KeyUp => shift st' = false /\ Permutation (sel st) (sel st')
-  | KeyOther | ClickOut _ | Click BOther _ _ => shift st' = shift st /\ Permutation (sel st) (sel st')
+  | KeyOther | Click BOther _ _ => shift st' = shift st /\ Permutation (sel st) (sel st')
+  | ClickOut b =>
+      shift st' = shift st /\
+      (Permutation (sel st) (sel st') \/
+       (shift st = true /\ b = BRight /\
+        exists e, In e (sel st) /\ Permutation (sel st) (e :: sel st') /\ length (sel st) = S (length (sel st'))))
   | _ => True
   end.
 Proof.
   intros Hal. apply allowed_iff in Hal. destruct a as [ | | |b x y|b]; cbn [allowedP] in Hal; try exact Hal.
-  destruct b; try exact I. destruct Hal as (H1 & H2). split; [exact H1|]. destruct (shift st); exact H2.
+  - destruct b; try exact I. destruct Hal as (H1 & H2). split; [exact H1|]. destruct (shift st); exact H2.
+  - destruct Hal as (H1 & [H2|(Hs & Hb & e & Hin & Hp)]); (split; [exact H1|]); [left; exact H2|].
+    right. split; [exact Hs|]. split; [exact Hb|]. exists e. split; [exact Hin|]. split; [exact Hp|].
+    apply Permutation_length in Hp. exact Hp.
 Qed.
 
 (* a pick adds exactly the designated pair (nothing if the click designates nothing) *)
@@ -536,6 +562,16 @@ Proof.
       * rewrite (app_removelast_last e0 Hne) at 1. symmetry. apply Permutation_cons_append.
     + split; [exact Hs|reflexivity].
   - split; [exact Hs|]. destruct b; reflexivity.
+  - destruct (shift st) eqn:Hs.
+    + destruct b; try (split; [exact Hs|left; reflexivity]).
+      cbn [shift sel]. split; [reflexivity|].
+      destruct (sel st) as [|e0 r] eqn:Esel; [left; reflexivity|].
+      right. split; [reflexivity|]. split; [reflexivity|].
+      assert (Hne : e0 :: r <> []) by discriminate.
+      exists (last (e0 :: r) e0). split.
+      * rewrite (app_removelast_last e0 Hne) at 2. apply in_or_app. right. left. reflexivity.
+      * rewrite (app_removelast_last e0 Hne) at 1. symmetry. apply Permutation_cons_append.
+    + split; [exact Hs|left; reflexivity].
 Qed.
 
 (* hence every run of the present code is a trace of allowed steps, and all theorems above apply to it *)
@@ -597,8 +633,9 @@ Proof.
   unfold run_impl. assert (H0 : sorted_f (sel init_state)) by exact I. revert H0. generalize init_state.
   induction acts as [|a l IH]; intros st Hs; cbn [fold_left]; [exact Hs|]. apply IH.
   destruct a as [ | | |b x y|b]; cbn [impl_step sel]; try exact Hs.
-  destruct (shift st); [|exact Hs]. destruct b; try exact Hs.
-  - destruct (pick x y); [apply ssort_sorted|exact Hs].
-  - destruct (nearest_sel x (sel st)) as [[i d]|]; [apply drop_at_sorted; exact Hs|exact Hs].
-  - apply removelast_sorted. exact Hs.
+  - destruct (shift st); [|exact Hs]. destruct b; try exact Hs.
+    + destruct (pick x y); [apply ssort_sorted|exact Hs].
+    + destruct (nearest_sel x (sel st)) as [[i d]|]; [apply drop_at_sorted; exact Hs|exact Hs].
+    + apply removelast_sorted. exact Hs.
+  - destruct (shift st); [|exact Hs]. destruct b; try exact Hs. apply removelast_sorted. exact Hs.
 Qed.
